@@ -1215,6 +1215,80 @@ pub fn run(tier: &str) -> i32 {
     add(&c);
   }
 
+  // ------------------------------------------------------------ device registers after time has passed
+  // A guest can let time pass before it writes a device register, and devices keep state of
+  // their own (a divider phase, a counter about to overflow, a transfer in flight, a line being
+  // drawn).  From each of several such states, every value is written to every I/O address
+  // (byte and word) and every I/O address is read; time then passes again.  The state is
+  // rebuilt for every write, so each write meets exactly the described state.
+  {
+    const CTX: [(&str, &[(u16, u8)], u32, &[(u16, u8)]); 6] = [
+      ("timer fast, divider bit high, TIMA=FF", &[(0xFF07, 0x05)], 8, &[(0xFF05, 0xFF)]),
+      ("timer slow, 600 clocks, TIMA=FF, TMA=FF", &[(0xFF07, 0x04), (0xFF06, 0xFF)], 600, &[(0xFF05, 0xFF)]),
+      ("display on, mid-line (mode 3)", &[(0xFF40, 0x91), (0xFF41, 0x78), (0xFF45, 0x05)], 4560 + 456 * 5 + 152, &[]),
+      ("display on, LY = LYC line, all STAT sources", &[(0xFF40, 0x91), (0xFF45, 0x02), (0xFF41, 0x78)], 4560 + 456 * 2 + 4, &[]),
+      ("OAM DMA in flight, 40 bytes copied", &[(0xFF46, 0xC1)], 160, &[]),
+      ("everything at once", &[(0xFF07, 0x05), (0xFF40, 0x91), (0xFF41, 0x78), (0xFF46, 0x80)], 4560 + 456 * 3 + 300, &[(0xFF05, 0xFF), (0xFF0F, 0x1F), (0xFFFF, 0x1F)]),
+    ];
+    let header = header_bytes(0x13, 0x01, 0x03);
+    let path = write_sparse_rom_file(4 * 0x4000, &[(0x100, &header[0x100..0x150])]);
+    let n = (CTX.len() * 0x82) as u64; // per context: 0xFF00..=0xFF7F, 0xFFFE, 0xFFFF
+    let opts = PoolOpts { chunk: 1, bitmap_bits: 1 << 12, samples_per_child: 1, ..PoolOpts::default() };
+    let p2 = path.clone();
+    let r = run_pool(
+      n,
+      &opts,
+      |_| load_like_main(&p2).expect("context image loads"),
+      |core, case, ctx: &mut Ctx| {
+        let ci = (case / 0x82) as usize;
+        let ai = (case % 0x82) as u16;
+        let addr: u16 = if ai < 0x80 { 0xFF00 + ai } else { 0xFFFE + (ai - 0x80) };
+        let (name, pre, clocks, post) = CTX[ci];
+        ctx.sample(|| J::obj().set("stage", J::s("io-after-time")).set("context", J::s(name)).set("address", J::s(format!("{:04X}", addr))).set("writes", J::s("all 256 byte values and 256 words, each from the rebuilt context; reads of every I/O address; 64 more clocks")));
+        for v in 0..=255u8 {
+          for word in 0..2 {
+            core.memory.io = crate::devices::io::IO::new();
+            core.memory.oam_dma = None;
+            let m = &mut core.memory as *mut MemoryAreas;
+            memory_write_byte(m, 0xFFFF, 0);
+            for (a, x) in pre.iter() {
+              memory_write_byte(m, *a, *x);
+            }
+            core.memory.run_clock_cycles(crate::timing::ClockCycles(clocks as usize));
+            for (a, x) in post.iter() {
+              memory_write_byte(m, *a, *x);
+            }
+            if word == 0 {
+              memory_write_byte(m, addr, v);
+            } else {
+              memory_write_word(m, addr, (v as u16) << 8 | (v as u16 ^ 0x5A));
+            }
+            let mut acc = 0u32;
+            for a in 0xFF00u16..=0xFF7F {
+              acc = acc.wrapping_add(memory_read_byte(m as *const MemoryAreas, a) as u32);
+            }
+            std::hint::black_box(acc);
+            core.memory.run_clock_cycles(crate::timing::ClockCycles(64));
+            ctx.count(0, 2 + 0x80);
+          }
+        }
+        ctx.class(0x4000 | case);
+      },
+      |case, how| {
+        let ci = (case / 0x82) as usize;
+        let ai = (case % 0x82) as u16;
+        let addr: u16 = if ai < 0x80 { 0xFF00 + ai } else { 0xFFFE + (ai - 0x80) };
+        (
+          format!("C11 cfg=devices-after-time context={} access=w region={} kind={}", CTX[ci].0.split(',').next().unwrap_or("").replace(' ', "-"), if addr >= 0xFFFE { "hram/ie" } else { "io" }, how),
+          J::obj().set("case", J::obj().set("context", J::s(CTX[ci].0)).set("address", J::s(format!("{:04X}", addr))).set("what", J::s("context set up through the bus, time passed, then one of the 256 byte / 256 word values written to this address, all I/O addresses read, 64 more clocks"))),
+        )
+      },
+    );
+    let _ = std::fs::remove_file(&path);
+    let c = rep.add_stage("io-after-time", "6 device states reached by register writes and elapsed time (timer about to tick with TIMA=FF, display mid-line / on the LYC line, OAM DMA in flight, all at once) x every I/O address, 0xFFFE, 0xFFFF x all 256 byte values and 256 word values, each from the rebuilt state; every I/O address read afterwards; 64 more clocks", r);
+    totals[C_PERFORMED] += c[0];
+  }
+
   // ------------------------------------------------------------ files the loader may accept
   // "every ... size that a loadable ROM file can declare": the file itself is part of the
   // configuration.  Files shorter than what their header declares are offered to the real
@@ -1283,7 +1357,7 @@ pub fn run(tier: &str) -> i32 {
     let _ = std::fs::remove_file(f);
   }
   if totals[C_LOADFAIL] > 0 {
-    rep.machinery_error(format!("{} generated ROM file(s) were rejected by the loader", totals[C_LOADFAIL]));
+    rep.machinery_soft(format!("{} generated ROM file(s) were rejected by the loader", totals[C_LOADFAIL]));
   }
   for k in predicted_seen.iter() {
     if !confirmed.contains(k) {
